@@ -11,8 +11,11 @@ Definition mk (id len : N) (b : body) : ltx :=
 
 (** accounts 0..3 with funds; sudo = account 0 *)
 Definition st0 : lstate := genesis [(0, 1000000000); (1, 1000000000); (2, 1000000000); (3, 5)] 0 1.
-(** typed block with an extended commit info item of 4 bytes (empty fallback: 2 bytes) *)
-Definition env0 : env := mkEnv true None (Some (4, 2)).
+(** typed block with an extended commit info item of 4 bytes (no votes; the fallback item is
+    the same 4 bytes) *)
+Definition env0 : env := mkEnv true None (Some (4, 4)).
+(** typed block whose extended commit info item carries three signed votes (294 bytes) *)
+Definition env_votes : env := mkEnv true None (Some (294, 4)).
 
 Definition t_transfer : ltx := mk 1 231 (mkBody 1 0 [ATransfer 2 100]).
 Definition t_rollup : ltx := mk 2 400 (mkBody 2 0 [ARollup 7 150]).
@@ -102,7 +105,7 @@ Definition t_stale : ltx := mk 2 130 (mkBody 1 0 [AIbcSudoChange 3]).
 
 Lemma prepare_accepted_refuted :
   exists (e : env) (s0 : lstate) (q : list ltx) (mx : Z) p,
-    env_wf e /\ (mx <= Z.of_N I64_MAX)%Z /\ eci_fits e mx /\
+    env_wf e /\ (mx <= Z.of_N I64_MAX)%Z /\
     lprepare e s0 q mx = inl p /\
     p_included p = q /\
     run_nonfatal lexec s0 (p_included p) (p_state p) /\
@@ -112,7 +115,6 @@ Proof.
   destruct (lprepare env0 st10 [t_back; t_stale] 100000) as [p|] eqn:E; [|vm_compute in E; discriminate].
   exists env0, st10, [t_back; t_stale], 100000%Z, p.
   split; [intros H; discriminate|].
-  split; [vm_compute; discriminate|].
   split; [vm_compute; discriminate|].
   split; [exact E|].
   vm_compute in E. inversion E; subst p; clear E. cbn [p_included p_state p_entries].
@@ -125,29 +127,119 @@ Proof.
   vm_compute. reflexivity.
 Qed.
 
-(** The second way an honest proposal is refused: the extended commit info item does not fit
-    below max_tx_bytes, prepare_proposal falls back to an item holding empty bytes "to ensure
-    liveness", and that item does not decode in process_proposal (nor in the proposer's own
-    process_proposal or in finalize_block, which parse the data items the same way). *)
-Lemma prepare_accepted_eci_refuted :
+(* ------------------------------------------------------------------------------------------ *)
+(** * The extended commit info does not fit below max_tx_bytes *)
+
+(** prepare_proposal then substitutes the encoding of the empty extended commit info of the same
+    round; the block (here: 68 bytes of commitments, the 4-byte item, one 231-byte transaction of
+    a queue of two) stays within max_tx_bytes and is accepted. *)
+Example ex_prepare_eci_fallback :
+  match lprepare env_votes st0 [t_transfer; t_rollup] (68 + 4 + 231) with
+  | inl p => firstn 1 (skipn 2 (p_entries p)) = [EItem (IEci 4 EciGood)] /\
+             map tx_id (p_included p) = [1] /\
+             proposal_len true (p_entries p) = 303 /\
+             lprocess env_votes st0 (p_entries p) = Accept
+  | inr _ => False
+  end.
+Proof. vm_compute. repeat split; reflexivity. Qed.
+
+(** when it fits, the item with the votes is the one in the block *)
+Example ex_prepare_eci_fits :
+  match lprepare env_votes st0 [t_transfer] (68 + 294 + 231) with
+  | inl p => firstn 1 (skipn 2 (p_entries p)) = [EItem (IEci 294 EciGood)] /\
+             map tx_id (p_included p) = [1] /\
+             lprocess env_votes st0 (p_entries p) = Accept
+  | inr _ => False
+  end.
+Proof. vm_compute. repeat split; reflexivity. Qed.
+
+(** not even the empty extended commit info fits: prepare_proposal fails *)
+Example ex_prepare_eci_no_room : lprepare env_votes st0 [t_transfer] 71 = inr PItemSize.
+Proof. reflexivity. Qed.
+
+(** an item that does not decode (such as one holding empty bytes) in the place of the extended
+    commit info is a parse failure *)
+Example ex_reject_eci_undecodable :
+  lprocess env0 st0 (firstn 2 (honest_entries 1000000) ++ [EItem (IEci 2 EciUndecodable)]
+                     ++ skipn 3 (honest_entries 1000000)) = Reject RParse.
+Proof. vm_compute. reflexivity. Qed.
+
+(** ** prepare_proposal as it was before repository commit a321bb4 (finding F10b; kept for the
+    record, used by no other definition and not extracted) *)
+
+(** The fallback item held empty bytes, which do not decode as an
+    ExtendedCommitInfoWithCurrencyPairMapping. *)
+Definition add_eci_before_a321bb4 (e : env) (c : constraints)
+  : option (constraints * list (entry body commitment)) :=
+  match e_eci e with
+  | None => Some (c, [])
+  | Some (len, empty_len) =>
+    match comet_checked_add c len with
+    | Some c' => Some (c', [EItem (IEci len EciGood)])
+    | None => match comet_checked_add c empty_len with
+              | Some c' => Some (c', [EItem (IEci empty_len EciUndecodable)])
+              | None => None
+              end
+    end
+  end.
+
+Definition lprepare_before_a321bb4 (e : env) (s0 : lstate) (queue : list ltx) (max_tx_bytes : Z)
+  : prepared lstate body commitment + prep_error :=
+  match bsc_new max_tx_bytes (e_typed e) with
+  | None => inr PSize
+  | Some c0 =>
+    match add_upgrade e c0 with
+    | None => inr PItemSize
+    | Some (c1, upg) =>
+      match add_eci_before_a321bb4 e c1 with
+      | None => inr PItemSize
+      | Some (c2, eci) =>
+        match prepare_loop lexec (mkL c2 G_BUNDLEABLE_GENERAL s0 [] []) queue with
+        | None => inr PGrow
+        | Some l =>
+          let incl := rev (l_included l) in
+          inl (mkP incl (l_state l) (rev (l_removed l)) (l_c l)
+                   (EItem (IDatasRoot (lcommit_datas incl (l_state l)))
+                    :: EItem (IIdsRoot (lcommit_ids incl (l_state l)))
+                    :: upg ++ eci ++ map (fun t => ETx (honest_raw t)) incl))
+        end
+      end
+    end
+  end.
+
+(** With the 4-byte extended commit info of a commit without votes and the 2-byte item holding
+    empty bytes, max_tx_bytes = 71 produced a block within the limit that no process_proposal
+    could parse (nor the proposer's own process_proposal, nor finalize_block). *)
+Lemma prepare_before_a321bb4_rejected :
   exists (e : env) (s0 : lstate) (q : list ltx) (mx : Z) p,
-    env_wf e /\ (mx <= Z.of_N I64_MAX)%Z /\ ~ eci_fits e mx /\
-    lprepare e s0 q mx = inl p /\
+    env_wf e /\ (mx <= Z.of_N I64_MAX)%Z /\
+    lprepare_before_a321bb4 e s0 q mx = inl p /\
     constructible_at_start lconstruct s0 (p_included p) /\
     proposal_len (e_typed e) (p_entries p) <= Z.to_N mx /\
     lprocess e s0 (p_entries p) = Reject RParse.
 Proof.
-  destruct (lprepare env0 st0 [t_transfer] 71) as [p|] eqn:E; [|vm_compute in E; discriminate].
-  exists env0, st0, [t_transfer], 71%Z, p.
+  pose (e := mkEnv true None (Some (4, 2))).
+  destruct (lprepare_before_a321bb4 e st0 [t_transfer] 71) as [p|] eqn:E; [|vm_compute in E; discriminate].
+  exists e, st0, [t_transfer], 71%Z, p.
   split; [intros H; discriminate|].
   split; [vm_compute; discriminate|].
-  split; [vm_compute; intros H; apply H; reflexivity|].
   split; [exact E|].
   vm_compute in E. inversion E; subst p; clear E. cbn [p_included p_entries].
   split; [constructor|].
   split; [vm_compute; discriminate|].
   vm_compute. reflexivity.
 Qed.
+
+(** On the same input the current definition fails to propose at all when both items have the
+    4 bytes they have for a commit without votes, and proposes an acceptable block whenever the
+    empty extended commit info is the shorter one. *)
+Example ex_same_input_now :
+  lprepare env0 st0 [t_transfer] 71 = inr PItemSize /\
+  match lprepare env_votes st0 [t_transfer] 72 with
+  | inl p => lprocess env_votes st0 (p_entries p) = Accept
+  | inr _ => False
+  end.
+Proof. vm_compute. split; reflexivity. Qed.
 
 (** The instantiated commitment comparison is reflexive (hypothesis of prepare_accepted). *)
 Lemma list_eqb_refl {A} (eqb : A -> A -> bool) :
